@@ -88,7 +88,6 @@ def _apply_quick_excludes():
 
 
 _apply_quick_excludes()
-NOT_APPLICABLE.setdefault("C12", "the erase layer units (contracts/C12/cm.c, draft) do not get through CBMC 6.11 within 14 GB / 600 s yet (symbolic token-chain shapes; accept_token <-> accept_token_tree recursion); the Aho-Corasick + pairing pipeline is out of reach even at 4 bytes (DESIGN.md section 2); not claimed until a unit decides it")
 for _p in ["C%02d" % i for i in range(1, 21)]:
     if _p not in PROPS:
         NOT_APPLICABLE.setdefault(_p, "units for this property are not built yet in this revision of /verif (planned in DESIGN.md section 4); not claimed until they are")
